@@ -193,6 +193,9 @@ func (s *Store) apply(inc int, ops []*storage.Operation) error {
 	return nil
 }
 
+// Raw returns a copy of the stored value.
+func (s *Store) Raw(k string) []byte { s.mu.Lock(); defer s.mu.Unlock(); return append([]byte(nil), s.data[k]...) }
+
 // Keys returns the sorted keys (diagnostics).
 func (s *Store) Keys() []string {
 	s.mu.Lock()
